@@ -128,7 +128,8 @@ func (p *PPS) Encode(sps *SPS, nalRefIdc uint) *Coded {
 
 // PPSOpt steers GenPPS.
 type PPSOpt struct {
-	NoSliceGroups bool // num_slice_groups_minus1 = 0
+	NoSliceGroups    bool // num_slice_groups_minus1 = 0
+	SliceGroupIdRuns bool // map type 6: slice_group_id drawn in runs of equal ids (mostly 0), so that the PPS carries zero bytes and emulation prevention bytes
 }
 
 // GenPPS draws a syntactically valid PPS record referring to sps.
@@ -168,6 +169,15 @@ func GenPPS(r Rng, id uint64, sps *SPS, opt PPSOpt) *PPS {
 				p.SliceGroupChangeRateMinus1 = uint64(r.Intn(8))
 			}
 		case 6:
+			if opt.SliceGroupIdRuns {
+				for uint64(len(p.SliceGroupId)) < units {
+					id := uint64(Pick(r, 0, 0, 0, r.Intn(n+1)))
+					for run := Pick(r, 1, 8, 24, 48, 1+r.Intn(200)); run > 0 && uint64(len(p.SliceGroupId)) < units; run-- {
+						p.SliceGroupId = append(p.SliceGroupId, id)
+					}
+				}
+				break
+			}
 			for i := uint64(0); i < units; i++ {
 				p.SliceGroupId = append(p.SliceGroupId, uint64(r.Intn(n+1)))
 			}
